@@ -13,7 +13,9 @@ RULE = ("(a) exhaustive: every byte 0..255 as a one-character input (as str wher
         "(b) Hypothesis: strings and lists of strings over each alphabet in mixed case with one foreign character inserted at every position in "
         "turn, passed as str, list, base-encoded EncodedArray and base-encoded EncodedRaggedArray (empty rows included), plus StringEncoding "
         "label lists with one foreign label; (c) every ordered pair of alphabets x strings over the source alphabet for "
-        "as_encoded_array(x, target) and change_encoding(x, target), on contiguous arrays and on row-reordered views. "
+        "as_encoded_array(x, target) and change_encoding(x, target), on contiguous arrays and on row-reordered views; (d) histories of 2..6 "
+        "re-targetings in one process between alphabets that share a leading prefix (alphabets made for the case, and the predefined DNA/RNA ones), "
+        "so that what an earlier call leaves behind cannot change a later call. "
         "Oracle: a Python model of each alphabet (a character is accepted iff its upper-case form, for letters only, is a member). Accepted "
         "input decodes to the upper-cased original row for row with the ragged shape unchanged; rejected input raises EncodingError; "
         "re-targeting yields data whose text equals the source text or raises. "
@@ -23,9 +25,9 @@ ASSUMPTIONS = [
     "StringEncoding is checked for membership and round trip only (hash collisions of the 31-bit polynomial hash are outside what random search can reach).",
 ]
 REQUIRED_CLASSES = ["byte-exhaustive", "foreign-char", "mixed-case", "ragged-with-empty-row", "pair-retarget", "pair-change_encoding",
-                    "view-input", "string-encoding"]
-BOUNDS = {"quick": "(a) complete: 256 bytes x 10 encodings x 2 routes; (b) 1500 strings per alphabet; (c) all 90 ordered pairs x 150 strings",
-          "thorough": "(a) complete; (b) 15000 per alphabet; (c) all pairs x 1500 strings"}
+                    "view-input", "string-encoding", "retarget-history", "history-prefix-then-beyond"]
+BOUNDS = {"quick": "(a) complete: 256 bytes x 10 encodings x 2 routes; (b) 1500 strings per alphabet; (c) all 90 ordered pairs x 150 strings; (d) 6000 histories",
+          "thorough": "(a) complete; (b) 15000 per alphabet; (c) all pairs x 1500 strings; (d) 240000 histories"}
 BUDGET_S = {"quick": 150, "thorough": 900}
 ALL_EXHAUSTIVE = False
 
@@ -37,6 +39,8 @@ ALPHABETS = {
 
 def enc_of(name):
     from bionumpy.encodings import alphabet_encoding as ae
+    if name.startswith("custom:"):
+        return ae.AlphabetEncoding(name[len("custom:"):])
     return {"ACGT": ae.ACGTEncoding, "ACTG": ae.ACTGEncoding, "ACGTn": ae.ACGTnEncoding, "ACTGn": ae.ACTGnEncoding, "ACUG": ae.ACUGEncoding,
             "AminoAcid": ae.AminoAcidEncoding, "Bam": ae.BamEncoding, "CigarOp": ae.CigarOpEncoding, "Strand": ae.StrandEncoding,
             "Digit": ae.DigitEncoding}[name]
@@ -46,8 +50,12 @@ def model_upper(ch):
     return ch.upper() if ch in string.ascii_letters else ch
 
 
+def letters_of(name):
+    return name[len("custom:"):] if name.startswith("custom:") else ALPHABETS[name]
+
+
 def model_accepts(alpha, text):
-    return all(model_upper(c) in ALPHABETS[alpha] for c in text)
+    return all(model_upper(c) in letters_of(alpha) for c in text)
 
 
 def classify(case):
@@ -73,6 +81,19 @@ def classify(case):
         nontrivial = case["src"] != case["dst"]
         if case.get("view"):
             cl.append("view-input")
+    elif kind == "history":
+        cl.append("retarget-history")
+        steps = case["steps"]
+        nontrivial = len(steps) >= 2
+        # the hazard: a call whose codes all lie in the prefix two alphabets share, followed by one between the same pair that goes beyond it
+        for i, a in enumerate(steps):
+            for b in steps[i + 1:]:
+                if (a["src"], a["dst"]) == (b["src"], b["dst"]) and a["src"] != a["dst"]:
+                    A, B = letters_of(a["src"]), letters_of(a["dst"])
+                    p = next((k for k, (x, y) in enumerate(zip(A, B)) if x != y), min(len(A), len(B)))
+                    inside = lambda st_: all(ch in A[:p] for r in st_["rows"] for ch in r.upper())
+                    if inside(a) and not inside(b):
+                        cl.append("history-prefix-then-beyond")
     elif kind == "labels":
         cl.append("string-encoding")
         nontrivial = any(x not in case["labels"] for x in case["query"])
@@ -87,6 +108,35 @@ def _decode_rows(x):
         return x.to_string()
     except Exception as e:  # an encoded array that cannot be decoded is itself a wrong result
         return f"<decode raised {type(e).__name__}>"
+
+
+def _check_pair(case, stats=None, bucket_suffix=""):
+    import numpy as np
+    from bionumpy.encoded_array import change_encoding, as_encoded_array
+    src, dst, rows, how = case["src"], case["dst"], case["rows"], case["how"]
+    x = as_encoded_array(list(rows) if case["ragged"] else rows[0], enc_of(src))
+    text = [r.upper() for r in rows] if case["ragged"] else rows[0].upper()
+    if case.get("view") and case["ragged"]:
+        order = case["view"]
+        idx = [i % len(rows) for i in order]
+        x = x[np.array(idx, dtype=int)]
+        text = [text[i] for i in idx]
+    if src == "Strand" and case["ragged"]:
+        text = "".join(text)
+    try:
+        r = as_encoded_array(x, enc_of(dst)) if how == "retarget" else change_encoding(x, enc_of(dst))
+    except Exception:
+        if stats is not None:
+            stats.raised_allowed[how] += 1
+        return []
+    got = _decode_rows(r)
+    if isinstance(text, str) and not isinstance(got, str):
+        got = "".join(got)
+    if isinstance(text, list) and isinstance(got, str):
+        text = "".join(text)
+    if got != text:
+        return [Failure(f"C06:{how}-changes-text{bucket_suffix}", {"source_text": text, "result_text": got, "pair": f"{src}->{dst}", "view": case.get("view")})]
+    return []
 
 
 def check(case, stats=None):
@@ -148,29 +198,15 @@ def check(case, stats=None):
             return [Failure(f"C06:result-encoding:{alpha}", {"encoding": repr(r.encoding)})]
         return []
     if kind == "pair":
-        src, dst, rows, how = case["src"], case["dst"], case["rows"], case["how"]
-        x = as_encoded_array(list(rows) if case["ragged"] else rows[0], enc_of(src))
-        text = [r.upper() for r in rows] if case["ragged"] else rows[0].upper()
-        if case.get("view") and case["ragged"]:
-            order = case["view"]
-            idx = [i % len(rows) for i in order]
-            x = x[np.array(idx, dtype=int)]
-            text = [text[i] for i in idx]
-        if src == "Strand" and case["ragged"]:
-            text = "".join(text)
-        try:
-            r = as_encoded_array(x, enc_of(dst)) if how == "retarget" else change_encoding(x, enc_of(dst))
-        except Exception:
-            if stats is not None:
-                stats.raised_allowed[how] += 1
-            return []
-        got = _decode_rows(r)
-        if isinstance(text, str) and not isinstance(got, str):
-            got = "".join(got)
-        if isinstance(text, list) and isinstance(got, str):
-            text = "".join(text)
-        if got != text:
-            return [Failure(f"C06:{how}-changes-text", {"source_text": text, "result_text": got, "pair": f"{src}->{dst}", "view": case.get("view")})]
+        return _check_pair(case, stats)
+    if kind == "history":
+        # a sequence of re-targetings in one process: an earlier call must not change what a later call does
+        for i, step in enumerate(case["steps"]):
+            fails = _check_pair(step, stats, bucket_suffix="-after-earlier-calls" if i else "")
+            if fails:
+                fails[0].detail["step"] = i
+                fails[0].detail["earlier_steps"] = [{"pair": f"{s['src']}->{s['dst']}", "rows": s["rows"], "how": s["how"]} for s in case["steps"][:i]]
+                return fails
         return []
     if kind == "labels":
         from bionumpy.encodings.string_encodings import StringEncoding
@@ -246,6 +282,31 @@ def pair_case(draw, src, dst):
 
 
 @st.composite
+def history_case(draw):
+    """2..6 re-targetings in a row between a few alphabets that share a leading prefix. Half of the cases use alphabets made for the case
+    (so the state left by other cases in the same worker process does not matter), half use the predefined DNA/RNA encodings."""
+    if draw(st.booleans()):
+        k = draw(st.integers(3, 6))
+        base = draw(st.permutations(list("ACGTNUXYZW")).map(lambda p: "".join(p[:k])))
+        p = draw(st.integers(0, k - 2))
+        tail = draw(st.permutations(list(base[p:])).map("".join))
+        names = ["custom:" + base, "custom:" + base[:p] + tail]
+        if draw(st.booleans()):
+            names.append("custom:" + draw(st.permutations(list(base)).map("".join)))
+    else:
+        names = draw(st.lists(st.sampled_from(["ACGT", "ACTG", "ACGTn", "ACTGn", "ACUG"]), min_size=2, max_size=3, unique=True))
+    steps = []
+    for _ in range(draw(st.integers(2, 6))):
+        src, dst = draw(st.sampled_from(names)), draw(st.sampled_from(names))
+        chars = letters_of(src)
+        m = draw(st.integers(1, len(chars)))
+        ragged = draw(st.booleans())
+        rows = [draw(st.text(alphabet=chars[:m], min_size=1, max_size=6)) for _ in range(draw(st.integers(1, 3)) if ragged else 1)]
+        steps.append({"src": src, "dst": dst, "rows": rows, "ragged": ragged, "how": draw(st.sampled_from(["retarget", "retarget", "change_encoding"]))})
+    return {"kind": "history", "steps": steps}
+
+
+@st.composite
 def labels_case(draw):
     labels = draw(st.lists(st.text(alphabet="chrXY_0123456789ab", min_size=1, max_size=8), min_size=1, max_size=8, unique=True))
     query = draw(st.lists(st.sampled_from(labels), min_size=1, max_size=6))
@@ -268,6 +329,11 @@ def task_pairs(stats, known_open, src, n, seed):
             core.run_hypothesis(sys.modules[__name__], pair_case(src, dst), stats, known_open, max_examples=n, seed=seed * 100 + j)
 
 
+def task_history(stats, known_open, n, seed):
+    import sys
+    core.run_hypothesis(sys.modules[__name__], history_case(), stats, known_open, max_examples=n, seed=seed)
+
+
 def task_labels(stats, known_open, n, seed):
     import sys
     core.run_hypothesis(sys.modules[__name__], labels_case(), stats, known_open, max_examples=n, seed=seed)
@@ -280,4 +346,6 @@ def tasks(tier, seed):
         out.append(("task_encode", dict(alpha=a, n=n_enc, seed=seed * 1000 + i)))
         out.append(("task_pairs", dict(src=a, n=n_pair, seed=seed * 1000 + 100 + i)))
     out.append(("task_labels", dict(n=n_enc, seed=seed * 1000 + 999)))
+    for j in range(4 if tier == "quick" else 16):
+        out.append(("task_history", dict(n=n_enc, seed=seed * 1000 + 800 + j)))
     return out
